@@ -59,6 +59,7 @@ type Explorer struct {
 	inputs     []InputRec
 	observed   []Observation
 	regions    map[string]*Term // known-finding regions declared on this path
+	defs       []*lazyDef
 	unconf     bool             // an Unknown answer was assumed feasible on this path
 	envDepth   int
 	envHook    func(point string) bool
@@ -225,9 +226,13 @@ func (ex *Explorer) decide(c *Term, why string) bool {
 	if c.op == OpConst {
 		return c.val != 0
 	}
+	if v, ok := ex.quickRange(c); ok {
+		return v
+	}
 	if len(ex.trace) > ex.maxDepth {
 		ex.abort("unwind", fmt.Sprintf("more than %d symbolic decisions on one path", ex.maxDepth))
 	}
+	ex.touch(c)
 	if ex.replayPos() {
 		d := ex.trace[ex.cursor]
 		ex.cursor++
@@ -382,6 +387,127 @@ func (ex *Explorer) freshVar(base string, w int) *Term {
 	return mkVar(ex.freshName(base), w)
 }
 
+// ---------------------------------------------------------------------
+// Lazily asserted definitions.  expandDec introduces digit bytes that are
+// a total function of the value they spell (given its text length, which is
+// already fixed on the path).  Such a definition constrains nothing but the
+// new bytes, so it is kept out of the path condition until a query mentions
+// one of them; queries about the value itself then do not carry the
+// multiplication chain that relates digits and value.
+
+type lazyDef struct {
+	c      *Term
+	vars   map[*Term]bool
+	lo, hi map[*Term]uint64 // value range of each defined byte (for quick decisions)
+	active bool
+}
+
+func (ex *Explorer) assumeDef(c *Term, cells []*Term) {
+	d := &lazyDef{c: c, vars: map[*Term]bool{}, lo: map[*Term]uint64{}, hi: map[*Term]uint64{}}
+	for i, v := range cells {
+		d.vars[v] = true
+		d.lo[v], d.hi[v] = '0', '9'
+		if i == 0 {
+			d.lo[v] = '-'
+		}
+	}
+	ex.defs = append(ex.defs, d)
+}
+
+func collectDecVars(t *Term, seen map[*Term]bool, out map[*Term]bool) {
+	if !t.dec || seen[t] {
+		return
+	}
+	seen[t] = true
+	if t.op == OpVar {
+		out[t] = true
+		return
+	}
+	for _, a := range t.args {
+		collectDecVars(a, seen, out)
+	}
+}
+
+// touch makes sure every definition whose bytes occur in t is part of the
+// path condition before t is evaluated or sent to the solver.
+func (ex *Explorer) touch(t *Term) {
+	if t == nil || !t.dec {
+		return
+	}
+	vars := map[*Term]bool{}
+	collectDecVars(t, map[*Term]bool{}, vars)
+	for _, d := range ex.defs {
+		if d.active {
+			continue
+		}
+		for v := range vars {
+			if d.vars[v] {
+				d.active = true
+				ex.pc = append(ex.pc, d.c)
+				ex.model = nil
+				break
+			}
+		}
+	}
+}
+
+// quickRange decides comparisons of one defined byte with a constant from
+// the byte's range alone (a digit is never '\r').  ok=false: not decided.
+func (ex *Explorer) quickRange(c *Term) (val, ok bool) {
+	if !c.dec {
+		return false, false
+	}
+	if c.op == OpBNot {
+		v, ok := ex.quickRange(c.args[0])
+		return !v, ok
+	}
+	if len(c.args) != 2 {
+		return false, false
+	}
+	rng := func(t *Term) (uint64, uint64, bool) {
+		for t.op == OpZExt {
+			t = t.args[0]
+		}
+		if t.op == OpConst {
+			return t.val, t.val, true
+		}
+		if t.op == OpVar {
+			for _, d := range ex.defs {
+				if d.vars[t] {
+					return d.lo[t], d.hi[t], true
+				}
+			}
+		}
+		return 0, 0, false
+	}
+	al, ah, ok1 := rng(c.args[0])
+	bl, bh, ok2 := rng(c.args[1])
+	if !ok1 || !ok2 || ah > 127 || bh > 127 {
+		return false, false
+	}
+	switch c.op {
+	case OpEq:
+		if ah < bl || bh < al {
+			return false, true
+		}
+	case OpUlt, OpSlt:
+		if ah < bl {
+			return true, true
+		}
+		if al >= bh {
+			return false, true
+		}
+	case OpUle, OpSle:
+		if ah <= bl {
+			return true, true
+		}
+		if al > bh {
+			return false, true
+		}
+	}
+	return false, false
+}
+
 func (ex *Explorer) replayPos() bool {
 	return ex.cursor < ex.replayLen
 }
@@ -394,6 +520,7 @@ func (ex *Explorer) assume(c *Term) {
 		}
 		return
 	}
+	ex.touch(c)
 	if ex.replayPos() || (ex.model != nil && ex.model.Eval(c) != 0) {
 		ex.pc = append(ex.pc, c)
 		return
@@ -476,6 +603,7 @@ func (ex *Explorer) obligation(label string, cond *Term, kind, where string) {
 		ex.recordViolation(label, kind, "holds on no input of this path", where, nil)
 		ex.abort("assert-stop", label)
 	}
+	ex.touch(cond)
 	if ex.replayPos() {
 		// this obligation was already decided when the prefix was first run
 		ex.Obligations--
@@ -529,6 +657,7 @@ func (ex *Explorer) obligation(label string, cond *Term, kind, where string) {
 }
 
 func (ex *Explorer) assumeAfterObligation(cond *Term) {
+	ex.touch(cond)
 	if ex.model != nil && ex.model.Eval(cond) != 0 {
 		ex.pc = append(ex.pc, cond)
 		return
@@ -608,6 +737,7 @@ func (ex *Explorer) reach(label string, cond *Term) {
 		}
 		return
 	}
+	ex.touch(cond)
 	if ex.model != nil && ex.model.Eval(cond) != 0 {
 		ex.Reach[label] = true
 		return
@@ -630,6 +760,7 @@ func (ex *Explorer) resetPath(w workItem) {
 		ex.model = Model{}
 	}
 	ex.nameCount = map[string]int{}
+	ex.defs = nil
 	ex.inputs = nil
 	ex.observed = nil
 	ex.regions = map[string]*Term{}
@@ -735,6 +866,12 @@ func (ex *Explorer) runOne(body func()) (end pathEnd) {
 		switch p := r.(type) {
 		case pathEnd:
 			end = p
+			if p.kind == "blocked" {
+				// the strand under test waits for ever (self-deadlock, a channel
+				// nobody serves) outside a harness that expects blocking
+				ex.Obligations++
+				ex.recordViolation("strand blocks for ever: "+p.msg, "hang", p.msg, ex.where(), nil)
+			}
 		case targetPanic:
 			// an uncaught Go panic in code under test
 			msg := panicText(p.v)
